@@ -208,6 +208,7 @@ class RemoveImportsTransformer(CSTTransformer):
                 if (
                     import_item.module_name == module_name
                     and import_item.obj_name == name_value
+                    and import_item.alias == name.evaluated_alias
                 ):
                     found = True
                     break
